@@ -20,9 +20,9 @@
    caller passed.  [NoDup (fetch_tags ls)] says that no closure object is passed twice
    (google::protobuf::Closure made by NewCallback is one-shot); it is the only further caller-side
    hypothesis. *)
-From Coq Require Import List ZArith Bool Arith.
+From Coq Require Import List ZArith Bool Arith Lia.
 From Coq.Strings Require Import Byte.
-From Muduo Require Import Base_Bytes Gen_C19 C19_Model C19_Proofs C19_DownProofs C19_GenLink.
+From Muduo Require Import Base_Bytes Gen_C19 C19_Model C19_Proofs C19_DownProofs C19_GenLink C19_Wire C19_WireProofs.
 Import ListNotations.
 Local Open Scope Z_scope.
 
@@ -251,6 +251,39 @@ Theorem C19_done_callback_safe_partial :
 Proof. exact done_callback_safe_both. Qed.
 Print Assumptions C19_done_callback_safe_partial.
 
+(* ---- the bytes of an RpcMessage (C19_Wire: rpc.proto in protobuf's proto2 encoding; the payload
+   framed by RpcCodec, C18) ----
+   Round trip: what SerializeAsString writes for a message, ParseFromString reads back as that
+   message ([wf_msg]: the id is a 64-bit value, no field is 2 GiB long). *)
+Theorem C19_wire_roundtrip :
+  forall m, wf_msg m -> wire_parse (wire_ser m) = Some m.
+Proof. exact wire_roundtrip. Qed.
+Print Assumptions C19_wire_roundtrip.
+
+(* More generally the decoder accepts the canonical fields in any order and any number of times:
+   the last occurrence of each field is delivered, and both required fields must occur. *)
+Theorem C19_wire_any_order :
+  forall fs, Forall wf_field fs -> wire_parse (ser_fields fs) = finish (fold_left apply_field fs p_empty).
+Proof. exact wire_any_order. Qed.
+Print Assumptions C19_wire_any_order.
+
+(* Two channels: the frame one channel hands to its connection (an ESendRequest / ESendResponse
+   event of the model) is, after serialisation and parsing, exactly the label the peer's channel
+   takes -- same id, same service / method, same content or error code.  [wire_of] /
+   [content_of] stand for the user's message type (SerializeAsString / ParseFromString), with the
+   round trip of that type as the stated hypothesis. *)
+Theorem C19_frames_arrive :
+  forall (wire_of : bytes -> bytes) (content_of : bytes -> payload),
+    (forall m, content_of (wire_of m) = Valid m) ->
+    (forall i svc meth req, int64 i -> short svc -> short meth -> short (wire_of req) ->
+       arrives_as wire_of content_of (ESendRequest i svc meth req) = Some (LRequest (mkReq i svc meth (Valid req)))) /\
+    (forall i m, int64 i -> short (wire_of m) ->
+       arrives_as wire_of content_of (ESendResponse i (RReply m)) = Some (LResponse i (mkBody (Some (Valid m)) None))) /\
+    (forall i e, int64 i ->
+       arrives_as wire_of content_of (ESendResponse i (RError e)) = Some (LResponse i (mkBody None (Some e)))).
+Proof. exact frames_arrive. Qed.
+Print Assumptions C19_frames_arrive.
+
 (* The tie to the source by generated facts (coq/Gen_C19.v is regenerated from the current
    RpcChannel.cc, Atomic.h and rpc.proto by lib/gen_C19.py on every check): the id is fetched by one
    atomic read-modify-write and used as wire id and map key; the call is registered in a mutex
@@ -272,7 +305,10 @@ Theorem C19_model_tied_to_source :
    (forall i, doneCallback_reply_id i = i) /\ doneCallback_sends = 1) /\
   (errnum NO_ERROR = EC_NO_ERROR /\ errnum WRONG_PROTO = EC_WRONG_PROTO /\ errnum NO_SERVICE = EC_NO_SERVICE /\
    errnum NO_METHOD = EC_NO_METHOD /\ errnum INVALID_REQUEST = EC_INVALID_REQUEST /\
-   errnum INVALID_RESPONSE = EC_INVALID_RESPONSE /\ errnum TIMEOUT = EC_TIMEOUT).
+   errnum INVALID_RESPONSE = EC_INVALID_RESPONSE /\ errnum TIMEOUT = EC_TIMEOUT) /\
+  (PF_type = (1, 1, 0) /\ PF_id = (2, 1, 1) /\ PF_service = (3, 0, 2) /\ PF_method = (4, 0, 2) /\
+   PF_request = (5, 0, 2) /\ PF_response = (6, 0, 2) /\ PF_error = (7, 0, 0) /\
+   mtype_num MT_REQUEST = MTN_REQUEST /\ mtype_num MT_RESPONSE = MTN_RESPONSE /\ mtype_num MT_ERROR = MTN_ERROR /\ MTN_count = 3).
 Proof. exact model_tied_to_source. Qed.
 Print Assumptions C19_model_tied_to_source.
 
@@ -354,6 +390,20 @@ Example C19_example_down_user_owned :
                cevents tr = [EDispatch 0%nat 5 [x53] [x45] []; EFetch 0%nat 1 1%nat; ERegister 0%nat 1 1%nat]%byte /\
                outs (core c) = [(1, ex_call 1)] /\ pending (core c) = [].
 Proof. eexists. eexists. split; [vm_compute; reflexivity|]. split; [reflexivity|]. split; reflexivity. Qed.
+
+(* the wire format on a concrete message, and the hypotheses of C19_frames_arrive with the identity codec *)
+Example C19_example_wire :
+  wire_ser (mkMsg MT_REQUEST 1 (Some [x61; x62]) (Some [x63]) (Some [x0a; x01; x41]) None None)%byte
+    = [x08; x01; x11; x01; x00; x00; x00; x00; x00; x00; x00; x1a; x02; x61; x62; x22; x01; x63; x2a; x03; x0a; x01; x41]%byte /\
+  wf_msg (mkMsg MT_REQUEST 1 (Some [x61; x62]) (Some [x63]) (Some [x0a; x01; x41]) None None)%byte /\
+  (forall m, Valid ((fun b : bytes => b) m) = Valid m) /\
+  wire_parse [x08; x01]%byte = None /\                                   (* required id missing *)
+  wire_parse [x11; x01; x00; x00; x00; x00; x00; x00; x00; x08; x02; x08; x05; x43; x08; x40; x44]%byte
+    = Some (mkMsg MT_RESPONSE 1 None None None None None).              (* any order, bad enum value and unknown group skipped *)
+Proof.
+  split; [vm_compute; reflexivity|]. split; [vm_compute; repeat split; try reflexivity; try exact I; intro; discriminate|]. split; [reflexivity|].
+  split; vm_compute; reflexivity.
+Qed.
 
 (* ---- observation, outside the property: the out-of-contract call ----
    CallMethod(method, NULL, &request, /*response=*/NULL, done) violates the precondition above; the
